@@ -12,7 +12,9 @@
 (* address for address changes).                                              *)
 EXTENDS Naturals, Sequences, FiniteSets, TLC, Json
 
-CONSTANTS Ids, Addrs, MaxPub, MaxSteps, FixD4a, EmitHist
+CONSTANTS Ids, Addrs, MaxPub, MaxSteps, FixD4a, EmitHist,
+          WithConsumers   \* TRUE: the subscriber is the store's membership watcher, which hands every change it reads to
+                          \* the task distributor and to the replication cycle (two FIFO channels drained at their ticks)
 
 Snapshots == [Ids -> {0} \cup Addrs]
 PairsOf(s) == { <<i, s[i]>> : i \in { j \in Ids : s[j] # 0 } }
@@ -26,8 +28,13 @@ VARIABLES cur,      \* the membership layer's current snapshot
           map,      \* the subscriber's accumulated members
           late,     \* it subscribed after two or more publishes (earlier deltas unreachable)
           skipped,  \* a publish overwrote a delta it had not read yet
-          hist      \* the behaviour so far (for replay)
-vars == <<cur, last, chan, sub, first, seen, map, late, skipped, hist>>
+          hist,     \* the behaviour so far (for replay)
+          dq, pq,   \* changes handed to the task distributor / the replication cycle and not yet drained
+          dmap,     \* the task distributor's live_members (whom the next batch is sent to)
+          pmap,     \* the replication cycle's live_members (whom the next round polls)
+          ptrk      \* the peers its keyspace tracker remembers
+vars == <<cur, last, chan, sub, first, seen, map, late, skipped, hist, dq, pq, dmap, pmap, ptrk>>
+cons == <<dq, pq, dmap, pmap, ptrk>>
 
 Empty == [i \in Ids |-> 0]
 
@@ -38,6 +45,8 @@ Init ==
   /\ map = Empty
   /\ late = FALSE /\ skipped = FALSE
   /\ hist = <<>>
+  /\ dq = <<>> /\ pq = <<>>
+  /\ dmap = Empty /\ pmap = Empty /\ ptrk = {}
 
 \* what the statement demands of a delta: everything that disappeared (or changed address) is
 \* reported as left with the address it had; everything new (or re-addressed) as joined
@@ -51,20 +60,24 @@ DeltaLeft(old, new) ==
 DeltaJoined(old, new) == PairsOf(new) \ PairsOf(old)
 
 Publish(s) ==
+  /\ Len(hist) < MaxSteps
   /\ chan.ver < MaxPub
   /\ s # cur
   /\ cur' = s /\ last' = s
   /\ chan' = [ver |-> chan.ver + 1, joined |-> DeltaJoined(last, s), left |-> DeltaLeft(last, s)]
   /\ skipped' = (skipped \/ (sub /\ (first \/ seen < chan.ver) /\ chan.ver > 0))
   /\ UNCHANGED <<sub, first, seen, map, late>>
+  /\ UNCHANGED cons
   /\ hist' = Append(hist, [op |-> "pub", snap |-> s,
                            left |-> ExpectedLeft(last, s), joined |-> ExpectedJoined(last, s)])
 
 Subscribe ==
+  /\ Len(hist) < MaxSteps
   /\ ~sub
   /\ sub' = TRUE /\ first' = TRUE
   /\ late' = (chan.ver >= 2)
   /\ UNCHANGED <<cur, last, chan, seen, map, skipped>>
+  /\ UNCHANGED cons
   /\ hist' = Append(hist, [op |-> "sub"])
 
 \* the subscriber applies a delta the way the distributor / poller do
@@ -75,13 +88,45 @@ ApplyDelta(m, d) ==
 CaughtUp == sub /\ ~first /\ seen = chan.ver
 
 Read ==
+  /\ Len(hist) < MaxSteps
   /\ sub /\ (first \/ seen < chan.ver)
   /\ map' = ApplyDelta(map, chan)
   /\ seen' = chan.ver /\ first' = FALSE
   /\ UNCHANGED <<cur, last, chan, sub, late, skipped>>
+  \* datacake-eventual-consistency/src/lib.rs watch_membership_changes: the change goes to both services
+  /\ dq' = IF WithConsumers THEN Append(dq, chan) ELSE dq
+  /\ pq' = IF WithConsumers THEN Append(pq, chan) ELSE pq
+  /\ UNCHANGED <<dmap, pmap, ptrk>>
   /\ hist' = Append(hist, [op |-> "read", expect |-> cur, late |-> late, skipped |-> skipped])
 
-Next == Len(hist) < MaxSteps /\ ((\E s \in Snapshots : Publish(s)) \/ Subscribe \/ Read)
+\* everything a service finds in its channel at a tick, applied in arrival order
+RECURSIVE Drain(_, _)
+Drain(m, q) == IF q = <<>> THEN m ELSE Drain(ApplyDelta(m, Head(q)), Tail(q))
+IdsOf(m) == { i \in Ids : m[i] # 0 }
+RECURSIVE DrainTrk(_, _)
+DrainTrk(t, q) == IF q = <<>> THEN t ELSE DrainTrk(t \ { p[1] : p \in Head(q).left }, Tail(q))
+
+\* replication/distributor.rs: the tick drains the channel; a batch built at this tick goes to dmap'
+DistTick ==
+  /\ Len(hist) < MaxSteps
+  /\ WithConsumers /\ dq # <<>>
+  /\ dmap' = Drain(dmap, dq)
+  /\ dq' = <<>>
+  /\ UNCHANGED <<cur, last, chan, sub, first, seen, map, late, skipped, pq, pmap, ptrk>>
+  /\ hist' = Append(hist, [op |-> "dtick"])
+
+\* replication/poller.rs: the round drains the channel (a departed peer is forgotten by the keyspace tracker),
+\* then polls every live member, which the tracker remembers from then on
+PollRound ==
+  /\ Len(hist) < MaxSteps
+  /\ WithConsumers /\ (pq # <<>> \/ ptrk # IdsOf(pmap))
+  /\ pmap' = Drain(pmap, pq)
+  /\ ptrk' = DrainTrk(ptrk, pq) \cup IdsOf(Drain(pmap, pq))
+  /\ pq' = <<>>
+  /\ UNCHANGED <<cur, last, chan, sub, first, seen, map, late, skipped, dq, dmap>>
+  /\ hist' = Append(hist, [op |-> "pround"])
+
+Next == (\E s \in Snapshots : Publish(s)) \/ Subscribe \/ Read \/ DistTick \/ PollRound
 Spec == Init /\ [][Next]_vars
 
 ----------------------------------------------------------------------------
@@ -96,7 +141,22 @@ C16_LeftReported ==
   [][ chan'.ver # chan.ver => /\ chan'.left = ExpectedLeft(last, cur')
                               /\ chan'.joined = ExpectedJoined(last, cur') ]_vars
 
+\* the consumers: once the store's watcher has read everything and a service has drained its channel, the service
+\* addresses exactly the live peers (same known findings as the subscriber they sit behind)
+C16_ConsumersAddUp ==
+  (WithConsumers /\ CaughtUp /\ ~late /\ ~skipped) => /\ (dq = <<>> => dmap = cur)
+                                                       /\ (pq = <<>> => pmap = cur)
+\* the keyspace tracker never remembers a peer the replication cycle no longer polls
+C16_TrackerLive == ptrk \subseteq IdsOf(pmap)
+\* whatever the subscriber holds, the consumers hold once drained (they apply the same deltas in the same order)
+C16_ConsumersFollow == (dq = <<>> => dmap = map) /\ (pq = <<>> => pmap = map)
+
 Emit == IF EmitHist /\ (Len(hist) = MaxSteps \/ (chan.ver = MaxPub /\ CaughtUp))
            /\ hist # <<>> /\ hist[Len(hist)].op = "read"
         THEN PrintT(<<"HIST", ToJson([hist |-> hist])>>) ELSE TRUE
+\* generation for the consumers replay: the store's watcher reads a change as soon as it is published, so only
+\* behaviours without a known finding are of interest, every one that ends in a read which caught up
+NoKnown == ~late /\ ~skipped
+EmitC == IF EmitHist /\ CaughtUp /\ hist # <<>> /\ hist[Len(hist)].op = "read"
+         THEN PrintT(<<"HIST", ToJson([hist |-> hist])>>) ELSE TRUE
 =============================================================================
